@@ -1,4 +1,7 @@
 import Driver.C04
+import Driver.C20
+import Driver.C18
+import Driver.C16
 import Driver.C14
 import Driver.C19
 import Driver.C15
@@ -23,6 +26,15 @@ partial def loop (h : IO.FS.Stream) (out : IO.FS.Stream) (f : String → String)
   loop h out f
 
 def modes : List (String × (String → String)) := [
+  ("c20l", C20.handleL),
+  ("c20b", C20.handleB),
+  ("c20x", C20.handleX),
+  ("c20", C20.handle),
+  ("c18", C18.handle),
+  ("c16spec", C16.handleSpec),
+  ("c16read", C16.handleRead),
+  ("c16pair", C16.handlePair),
+  ("c16split", C16.handleSplit),
   ("c19r", C19.handleRender),
   ("c19c", C19.handleCorpus),
   ("c19", C19.handle),
